@@ -83,6 +83,7 @@ func Parse(obj types.Object, opts *ParseOpts, localOpts LocalOpts) (*Definition,
 			Name: sig.Params().At(i).Name(),
 			Type: xtype.TypeOf(sig.Params().At(i).Type()),
 		}
+		arg.Variadic = sig.Variadic() && i == sig.Params().Len()-1
 
 		switch {
 		case types.Identical(arg.Type.T, opts.Converter):
